@@ -175,6 +175,8 @@ func e1BaseGrid(tier string) []e1Grid {
 		{mcfg("mpegts", false, 3, "h264b"), "reorder"},
 		{mcfg("fmp4", false, 3, "h264b"), "reorder"},
 		{mcfg("ll", false, 7, "h264b"), "reorder"},
+		{mcfg("fmp4", false, 3, "h264", "aacsbr"), "inter"},
+		{mcfg("ll", false, 7, "aacsbr"), "audio"},
 		{mcfg("fmp4", false, 3, "h265b"), "reorder"},
 		{mcfg("ll", false, 7, "h265b", "aac44"), "reorder"},
 		{mcfg("mpegts", false, 3, "h264"), "zero"},
@@ -279,6 +281,17 @@ func e1Scens(prop, tier string) []e1Scen {
 					out = append(out, e1Scen{Prop: prop, Cfg: cfg, Alpha: word, Mode: "fault", Len: 4 * (fa + 3), FaultAt: fa, Name: fmt.Sprintf("listed-after-rotation-fault-%d", fa)})
 				}
 			}
+		}
+	}
+	if prop == "C04" || prop == "C18" || prop == "C03" {
+		// fields left at their zero values: Start fills in Low-Latency, 1 s segments, 200 ms parts - and the rules of
+		// that variant apply, to SegmentCount too (3..6: Start may refuse; if it accepts, never more than SegmentCount
+		// segments are listed)
+		for n := 3; n <= 8; n++ {
+			cfg := mcfg("ll", n%2 == 0, n, "h264", "aac44")
+			cfg.SegMinMS, cfg.PartMS = 1000, 200
+			cfg.Defaults, cfg.MayRefuse = true, n < 7
+			out = append(out, e1Scen{Prop: prop, Cfg: cfg, Alpha: alphaInterleave(cfg), Mode: "periodic", Period: 2, Len: 6 * 8 * 2, Name: "zero-valued-configuration-periodic"})
 		}
 	}
 	if prop == "C04" {
